@@ -20,7 +20,7 @@ open ClockBound ClockBound.Rs ClockBound.Rs.DictShm
 
 rs_realize_eqns DictShm.evLoad DictShm.evStore DictShm.evFence DictShm.cellLoc DictShm.wordLoads DictShm.wordStores
   DictShm.readWords DictShm.evSys DictShm.evFs DictShm.errnoValue
-  EmbedShm.wordsValue EmbedShm.ordValue EmbedShm.locValue EmbedShm.locTy EmbedShm.accValue EmbedShm.rawInp
+  EmbedShm.wordsValue EmbedShm.ordValue EmbedShm.ordOfValue EmbedShm.locValue EmbedShm.locTy EmbedShm.accValue EmbedShm.rawInp
   EmbedShm.writerValue EmbedShm.readerValue EmbedShm.resultValue EmbedShm.loadCard EmbedShm.typedInp
   EmbedShm.readerOutcome EmbedShm.headerValue EmbedShm.sizes EmbedShm.shmErrValue EmbedShm.validValue
   EmbedShm.readValue EmbedShm.streamOf EmbedShm.cstrValue EmbedShm.freshReaderValue EmbedShm.openValue
@@ -29,7 +29,7 @@ rs_realize_eqns DictShm.evLoad DictShm.evStore DictShm.evFence DictShm.cellLoc D
 
 attribute [rs_eval] DictShm.path DictShm.deref DictShm.method DictShm.call DictShm.methodA DictShm.callA
   DictShm.methodB DictShm.methodC DictShm.callC DictShm.pathC DictShm.pathAll DictShm.derefAll DictShm.derefC
-  DictShm.macroC DictShm.methodD DictShm.callD DictShm.pathD DictShm.fsCall DictShm.asResult DictShm.pathObj
+  DictShm.macroC DictShm.refMutD DictShm.letPtrD DictShm.methodD DictShm.callD DictShm.pathD DictShm.fsCall DictShm.asResult DictShm.pathObj
   DictShm.fileObj DictShm.syscallErr DictShm.fieldOfC DictShm.atomicVal DictShm.addr DictShm.addrPlus DictShm.libcConst DictShm.asInt
   DictShm.ptrA16 DictShm.refA16 DictShm.ptrCeb DictShm.ordering DictShm.asU16 DictShm.asU64 bitInt
 
@@ -43,6 +43,8 @@ attribute [rs_eval] DictShm.path DictShm.deref DictShm.method DictShm.call DictS
 @[rs_eval] theorem ext_macroCall : DictShm.ext.macroCall = DictShm.macroC := rfl
 @[rs_eval] theorem ext_fieldOf : DictShm.ext.fieldOf = DictShm.fieldOfC := rfl
 @[rs_eval] theorem ext_cast : DictShm.ext.cast = Ext.none.cast := rfl
+@[rs_eval] theorem ext_refMut : DictShm.ext.refMut = DictShm.refMutD := rfl
+@[rs_eval] theorem ext_letPtr : DictShm.ext.letPtr = DictShm.letPtrD := rfl
 
 /-- an operand of a known integer type is not retyped -/
 @[rs_eval] theorem litFallback_int_l (fb : Option IntTy) (t : IntTy) (x : Int) (b : Value) (h : t ≠ .infer) :
